@@ -322,7 +322,7 @@ func runC15(c *vk.Ctx) {
 	c.Count("enumerated_inputs", n)
 	c.SetExhaustive(!c.Quick())
 	// (3) mutants of valid programs
-	np := c.N(96, 20000)
+	np := c.N(96, 5000)
 	var m int64
 	for i := 0; i < np; i++ {
 		if !c.Mine(i) {
